@@ -11,3 +11,5 @@ func verifOpen(db *DB) {}
 func verifIO(db *DB, kind string, arg int64) error { return nil }
 
 func verifWrapFreelist(db *DB, f fl.Interface) fl.Interface { return f }
+
+func verifRebalanceVisit(b *Bucket, n *node) {}
